@@ -14,9 +14,10 @@ SOURCES = ['/src/a/', '/src/b/']
 SETUP = {
     'ra': {
         'et': 'type.a',
-        'props': {'name': 'o.str', 'n': 'o.byte', 'flag': 'o.bool', 'tags': 'o.tag', 'first': 'o.str'},
-        'optional': ['n', 'flag', 'tags', 'first'], 'multi': ['tags'],
-        'map': {'name': 'name', 'sub.n': 'n', 'flag': 'flag', 'tags': 'tags', 'items.0.v': 'first'},
+        'props': {'name': 'o.str', 'n': 'o.byte', 'flag': 'o.bool', 'tags': 'o.tag', 'first': 'o.str', 'codes': 'o.byte', 'labels': 'o.str'},
+        'optional': ['n', 'flag', 'tags', 'first', 'codes', 'labels'], 'multi': ['tags', 'codes', 'labels'],
+        # codes / labels: list valued fields whose members are numbers (0 and 1 among them)
+        'map': {'name': 'name', 'sub.n': 'n', 'flag': 'flag', 'tags': 'tags', 'items.0.v': 'first', 'codes': 'codes', 'nums': 'labels'},
     },
     'rb': {
         'et': 'type.b',
@@ -33,6 +34,7 @@ NAMES = ['alice', 'bob', '', None, ' x ', 'é<&>', 'a\nb']
 NUMS = [0, 7, 255, '7', '007', ' 7', 256, -1, 'x', None, '', 3.0]
 FLAGS = [True, False, 'true', 'True', 'yes', None]
 TAGS = [['t1', 't2'], [], ['t1', ''], 't1', None, ['t1', 't1'], ['aaaaaa', 't1'], ['t0', 'zzzzzz'], ['t1', 'mmmmmm', 't9'], ['aaaaaa']]
+CODES = [None, None, [0, 1, 127], [1], [0, 5], [7, 7], [2, 300], [], [0], [1, 2, 3], ['1', 1]]
 WHENS = ['2020-01-01T00:00:00.000000Z', '2020-01-01T12:00:00+02:00', 'yesterday', None, '2020-02-30T00:00:00.000000Z']
 
 
@@ -45,6 +47,10 @@ def gen_record(rng):
     else:
         rec = {'type': rt, 'name': rng.choice(NAMES), 'sub': {'n': rng.choice(NUMS)}, 'flag': rng.choice(FLAGS), 'tags': rng.choice(TAGS),
                'items': rng.choice([[{'v': 'first'}], [], [{'w': 1}], None])}
+        for field in ('codes', 'nums'):
+            v = rng.choice(CODES)
+            if v is not None:
+                rec[field] = v
         if rng.random() < 0.15:
             del rec['sub']
     return rec
@@ -67,10 +73,36 @@ def gen_case(rng):
             ops.append(['record', gen_record(rng)])
     case = {'ops': ops, 'ignore_invalid': rng.random() < 0.5, 'repair_normalize': rng.random() < 0.5, 'repair_drop': rng.random() < 0.3,
             'fallback': rng.random() < 0.3, 'to_file': rng.random() < 0.5, 'initial_source': True, 'multi_yield': rng.random() < 0.5}
+    if rng.random() < 0.35:
+        # explicit enable_auto_repair_*() calls on the mediator after the transcoders were registered
+        case['explicit_repair'] = rng.choice([{'normalize': ['flag']}, {'normalize': ['when']}, {'drop': ['when']}, {'normalize': ['n'], 'drop': []},
+                                              {'normalize': []}, {'drop': ['n']}, {'normalize': ['flag'], 'drop': ['when']}])
     if not case['ignore_invalid'] and rng.random() < 0.4:
         # ignore_invalid_events() is called in mid session, just before the op with this index
         case['ignore_at'] = rng.randint(1, max(1, len(ops) - 1))
     return case
+
+
+def effective_repair(case, et):
+    """The properties the mediator may repair for an event type: what the record transcoder's class constants enable, replaced
+    by the list of an explicit enable_auto_repair_*() call on the mediator (the call replaces, it does not add)."""
+    cfg = {'type.a': SETUP['ra'], 'type.b': SETUP['rb']}.get(et)
+    if cfg is None:
+        return [], []
+    norm = [p for p in ('n', 'when', 'flag') if p in cfg['props']] if case['repair_normalize'] else []
+    drop = [p for p in ('n', 'when') if p in cfg['props']] if case['repair_drop'] else []
+    ex = case.get('explicit_repair') or {}
+    if 'normalize' in ex:
+        norm = [p for p in ex['normalize'] if p in cfg['props']]
+    if 'drop' in ex:
+        drop = [p for p in ex['drop'] if p in cfg['props']]
+    return norm, drop
+
+
+def beyond_repair(case, et, exp):
+    """An invalid event stays invalid when one of its offending properties is not among those the mediator may repair."""
+    norm, drop = effective_repair(case, et)
+    return any(b not in norm and b not in drop for b in exp['bad'])
 
 
 POST = {'label': lambda v: ['label of %s' % (v,)], 'shout': lambda v: [str(v).upper() + '!']}
@@ -141,6 +173,13 @@ def run_case(case):
         m.register(rt, cls())
     if case['ignore_invalid']:
         m.ignore_invalid_events()
+    ex = case.get('explicit_repair') or {}
+    for et, cfg in (('type.a', SETUP['ra']), ('type.b', SETUP['rb'])):
+        # an explicit call after register(): replaces what the class constants of the transcoder enabled
+        if 'normalize' in ex:
+            m.enable_auto_repair_normalize(et, [p for p in ex['normalize'] if p in cfg['props']])
+        if 'drop' in ex:
+            m.enable_auto_repair_drop(et, [p for p in ex['drop'] if p in cfg['props']])
     if case['initial_source']:
         m.add_event_source('/src/a/')
         m.set_event_source('/src/a/')
@@ -456,7 +495,7 @@ class C17(Property):
                     idx += 1
                     valid = status == 'valid' and cur in defined
                     mevs.append({'idx': idx, 'type': et, 'valid': valid})
-                    dec = dec and (valid or not (case['repair_normalize'] or case['repair_drop']) or cur not in defined)
+                    dec = dec and (valid or cur not in defined or beyond_repair(case, et, exp))
                     by_exp[idx] = (et, exp)
                 ops.append({'k': 'record', 'events': mevs, 'n': n})
                 decided.append(dec)
@@ -542,9 +581,10 @@ class C17(Property):
                     exp = dict(exp, bad=['source-uri'])
                 if status == 'valid' and c is None:
                     want_min.append({'type': et, 'source': cur, 'props': sorted([k, v] for k, v in exp['props'].items())})
-                if status == 'invalid' and c is None and not ignoring and not (case['repair_normalize'] or case['repair_drop']):
-                    return 'record %s gives an invalid event (%s), invalid events are not ignored and not repaired, but process() did not raise' % (
-                        json.dumps(op[1], ensure_ascii=False, default=str)[:200], exp['bad'])
+                if status == 'invalid' and c is None and not ignoring and beyond_repair(case, et, exp):
+                    return ('record %s gives an invalid event (%s), invalid events are not ignored and the configured repair (normalize %s, '
+                            'drop %s) does not cover that, but process() did not raise' % (
+                                json.dumps(op[1], ensure_ascii=False, default=str)[:200], exp['bad'], *effective_repair(case, et)))
         got = [{'type': e['type'], 'source': e['source'], 'props': e['props']} for e in obs['events']]
         # every written event is valid (the validating parser accepted it); the valid-as-generated ones appear in order
         it = iter(got)
